@@ -35,7 +35,7 @@ import (
 func init() {
 	Register(&Check{
 		ID: "C27", World: "E/config-reload", Gen: genConfig, Run: runConfig,
-		OwnProbes: []string{"applied_change", "rejected_invalid", "warning_only_content", "unchanged_content", "concurrent_reloads_interleaved", "unreadable_file", "fetch_in_flight", "newest_content_checked_after_overlapping_reloads"},
+		OwnProbes: []string{"applied_change", "rejected_invalid", "warning_only_content", "unchanged_content", "concurrent_reloads_interleaved", "unreadable_file", "fetch_in_flight", "newest_content_checked_after_overlapping_reloads", "timer_liveness_checked"},
 		Real:      []string{"config.fileConfig (NewConfig, Reload, validation, hashing, getters)", "internal/configwatcher.ConfigWatcher (sequential runs)", "real temporary files, or the same served through http.DefaultClient's transport (URL sources)"},
 		Stub:      []string{"pubsub (SimPubSub)", "clock (bubble clock)", "task scheduling (TaskSched at simhook yield points in Reload)"},
 	})
@@ -393,6 +393,21 @@ func runConfig(t *testing.T, p *Plan) *Outcome {
 			drv.At(us(ts), "probe", fmt.Sprintf("probe/%d", ts), func() {})
 		}
 		drv.Run(us(last) + 3*time.Second)
+		// liveness once changes have stopped: the watcher's timer (ConfigReloadInterval
+		// is 1s in every acceptable content) has had three periods since the last
+		// operation; whatever startup would accept now is what runs
+		w.mu.Lock()
+		w.quiet++
+		fresh, _ := config.NewConfig(w.opts)
+		w.quiet--
+		w.mu.Unlock()
+		if fresh != nil {
+			out.Probe("timer_liveness_checked")
+			fm, fr := fresh.GetHashes()
+			if mh, rh := w.cfg.GetHashes(); mh != fm || rh != fr {
+				out.Violate("C27", "acceptable_content_never_applied", "internal/configwatcher.ConfigWatcher", "3s after the last operation (reload interval 1s) the running config is %s/%s but the files hold %s/%s, which startup accepts (cfg variant %d, rules variant %d)", short(mh), short(rh), short(fm), short(fr), w.curCfg, w.curRules)
+			}
+		}
 		cw.Stop()
 		drv.Settle()
 	})
